@@ -30,6 +30,7 @@ func genWFaultCase(t *rapid.T) WFaultCase {
 	c.W.WriteBuf = genBuf(t, "wbuf")
 	c.W.Pool = rapid.Bool().Draw(t, "pool")
 	c.W.Compress = rapid.Bool().Draw(t, "compress")
+	c.W.HSTimeout = rapid.IntRange(0, 2).Draw(t, "hs_timeout") == 0
 	c.Steps = genWriteProgram(t, c.W.EffWriteBuf(), WGenOpts{MaxSteps: 6, AllowHuge: false, AllowBad: true, AllowClose: false, AllowCtl: true})
 	c.OnlyK = -1
 	return c
@@ -139,6 +140,11 @@ func checkC10(c WFaultCase, o *Obs) error {
 // argument of WriteControl).  A connection that skips redundant deadline calls
 // is fine; one that leaves another frame's deadline armed is not.
 func checkDeadlines(tw *WTrace, log []xport.Op) error {
+	for _, op := range log {
+		if op.Kind == xport.OpSetDeadline || op.Kind == xport.OpSetReadDeadline {
+			return fmt.Errorf("a write call changed the connection's READ deadline (%v to %s): the reading goroutine's deadline is not the writer's to set", op.Kind, fmtDeadline(op.Deadline, tw.Base))
+		}
+	}
 	var armed time.Time
 	ci := 0
 	for i := range log {
